@@ -325,6 +325,9 @@ func xFrom(t sqlparser.TableExpr) (Node, error) {
 			if q := e.Qualifier.String(); q != "" {
 				name = q + "." + name
 			}
+			if name == "dual" && as == "" {
+				return Node{"k": "dual", "as": ""}, nil
+			}
 			p, err := plainPath(name)
 			if err != nil {
 				return nil, err
